@@ -530,7 +530,11 @@ func (o *operation) handle() {
 	reqMsg := message{
 		sameCompression: sameRequestCompression,
 		sameCodec:       sameRequestCodec,
+		mustCompress:    o.serverEnveloper == nil && o.server.reqCompression != nil,
 	}
+	// Envelopes of the client may leave individual messages uncompressed; if the server
+	// side cannot express that, re-framing alone is not enough.
+	mixedCompression := reqMsg.mustCompress && o.clientEnveloper != nil
 
 	if mustDecodeRequest {
 		// Need the message type to decode
@@ -609,7 +613,7 @@ func (o *operation) handle() {
 	case skipBody:
 		// drain any contents of body so downstream handler sees empty
 		o.drainBody(o.request.Body)
-	case sameRequestCompression && sameRequestCodec && !mustDecodeRequest:
+	case sameRequestCompression && sameRequestCodec && !mustDecodeRequest && !mixedCompression:
 		// we do not need to decompress or decode; just transforming envelopes
 		o.request.Body = &envelopingReader{rw: rw, r: o.request.Body}
 	default:
@@ -1218,7 +1222,12 @@ func (w *responseWriter) WriteHeader(statusCode int) {
 	sameResponseCodec := sameCodec && !w.op.clientRespNeedsPrep && !w.op.serverRespNeedsPrep
 	mustDecodeResponse := !sameResponseCodec
 
-	respMsg := message{sameCompression: true, sameCodec: sameResponseCodec}
+	respMsg := message{
+		sameCompression: true,
+		sameCodec:       sameResponseCodec,
+		mustCompress:    w.op.clientEnveloper == nil && w.op.client.respCompression != nil,
+	}
+	mixedCompression := respMsg.mustCompress && w.op.serverEnveloper != nil
 
 	if mustDecodeResponse {
 		// We will have to decode and re-encode, so we need the message type.
@@ -1242,7 +1251,7 @@ func (w *responseWriter) WriteHeader(statusCode int) {
 	}
 
 	// Now we can define the transformed response body.
-	if sameResponseCodec && !mustDecodeResponse {
+	if sameResponseCodec && !mustDecodeResponse && !mixedCompression {
 		// we do not need to decompress or decode
 		w.w = &envelopingWriter{rw: w, w: delegate}
 	} else {
@@ -2029,6 +2038,10 @@ type message struct {
 	// wasCompressed is true if the data was originally compressed; this can
 	// be false in a stream when the stream envelope's compressed bit is unset.
 	wasCompressed bool
+	// mustCompress is true if the receiving side has no per-message compressed
+	// flag but declared a compression: every message must then be compressed,
+	// even one that arrived uncompressed.
+	mustCompress bool
 	// original size of the message on the wire, in bytes
 	size int
 
@@ -2093,7 +2106,7 @@ func (m *message) advanceToStage(op *operation, newStage messageStage) error {
 
 	// Fast path: stageRead only, buffer still in original encoding.
 	if m.stage == stageRead && newStage == stageSend && m.sameCodec &&
-		(!m.wasCompressed || m.sameCompression) {
+		(!m.wasCompressed || m.sameCompression) && (m.wasCompressed || !m.mustCompress) {
 		m.stage = newStage
 		return nil
 	}
@@ -2106,8 +2119,10 @@ func (m *message) advanceToStage(op *operation, newStage messageStage) error {
 			}
 			return m.advanceToStage(op, newStage)
 		}
-		if err := m.decompress(op); err != nil {
-			return err
+		if m.wasCompressed {
+			if err := m.decompress(op); err != nil {
+				return err
+			}
 		}
 		if err := m.compress(op); err != nil {
 			return err
@@ -2129,7 +2144,7 @@ func (m *message) advanceToStage(op *operation, newStage messageStage) error {
 				return err
 			}
 		}
-		if m.wasCompressed {
+		if m.wasCompressed || m.mustCompress {
 			if err := m.compress(op); err != nil {
 				return err
 			}
